@@ -14,6 +14,7 @@ import (
 	"testing/synctest"
 	"time"
 
+	"github.com/google/uuid"
 	"github.com/innovationb1ue/RedisGO/config"
 	"github.com/innovationb1ue/RedisGO/memdb"
 	"github.com/innovationb1ue/RedisGO/raftexample"
@@ -93,6 +94,9 @@ type nodeState struct {
 	restartedSnap         bool // restarted from an image holding a snapshot
 	gotMsgSnap            bool
 	restartedAfterMsgSnap bool
+	restartAfterTTL       bool // restarted after a deadline command had been issued
+	ttlSeen               map[string]time.Time
+	ttlGen                int
 	snapshotsTaken        int
 	lastSnapIdx           uint64
 	lastApplied           uint64
@@ -132,6 +136,7 @@ type OpRec struct {
 	InvokeSeq int64
 	InvokeAt  time.Time
 	ReturnSeq int64
+	ReturnAt  time.Time
 	Reply     rd.Value
 	Done      bool
 	Abandoned string // why the client gave up ("" = it did not)
@@ -149,6 +154,7 @@ type clientState struct {
 	ops  []*OpRec
 	rx   []byte
 	bad  string
+	wake time.Time // idle until then
 }
 
 type divergence struct {
@@ -157,6 +163,8 @@ type divergence struct {
 	DumpA, DumpB []string
 	Step         int
 	Class        string
+	SameInstant  bool
+	Note         string
 }
 
 // RunResult is everything the oracles look at.
@@ -234,6 +242,7 @@ type Sim struct {
 	mgmtClass       string
 	mgmtStep        int
 	mgmtNoChange    bool
+	ttlIssued       bool
 	dir             *directed
 	skipFinale      bool
 	rconfAdd        bool
@@ -328,6 +337,7 @@ func RunScenario(t *testing.T, sc *Scenario, tape *core.Tape, j *core.Journal, k
 	}()
 	cur = nil
 	raftexample.Verif = nil
+	uuid.SetRand(nil)
 	return res
 }
 
@@ -405,7 +415,12 @@ func (s *Sim) run() {
 		},
 		SnapCount: k.SnapCount, CatchUpN: k.CatchUpN, SkipHTTP: true, Quiet: true,
 	}
-	raft.VerifSeedRand(int64(s.tape.Draw(1 << 30)))
+	seed := s.tape.Draw(1 << 30)
+	raft.VerifSeedRand(int64(seed))
+	// proposal ids are random UUIDs; they end up in WAL records whose CRC is a
+	// varint, so their value decides record sizes and with them when a segment
+	// is cut (an extra sync seam) and where sector boundaries fall
+	uuid.SetRand(&seededReader{r: core.NewRand(core.Mix(uint64(seed), 0x751d))})
 
 	if s.sc.Kind == "C14" {
 		s.runReference()
@@ -698,6 +713,9 @@ func (s *Sim) collect() {
 	}
 	s.refreshStatus()
 	s.checkAgreement()
+	if s.k.TTL {
+		s.ttlAgreement()
+	}
 }
 
 func (s *Sim) collectClient(i int, c *clientState) {
@@ -727,7 +745,7 @@ func (s *Sim) collectClient(i int, c *clientState) {
 		}
 		op := c.cur
 		c.cur = nil
-		op.Reply, op.Done, op.ReturnSeq = v, true, s.res.Seq
+		op.Reply, op.Done, op.ReturnSeq, op.ReturnAt = v, true, s.res.Seq, time.Now()
 		s.res.Acked++
 		s.trace("c%d reply#%d %s", i, op.Idx, truncate(canonReply(op.Args, v), 100))
 	}
@@ -817,6 +835,9 @@ func (s *Sim) checkAgreement() {
 		}
 		ns.lastApplied, ns.lastAppliedInit = idx, true
 		dump := dumpAll(ns.inc.vn.Manager())
+		if s.k.TTL {
+			dump = withoutTTLKeys(dump) // compared at one instant by ttlAgreement
+		}
 		hsh := core.HashString(strings.Join(dump, "\n"))
 		if prev, ok := s.dumpAt[idx]; ok {
 			if prev.hash != hsh && s.res.Diverge == nil {
@@ -870,7 +891,7 @@ func (s *Sim) busy(node int) bool {
 
 func (s *Sim) clientsDone() bool {
 	for _, c := range s.cs {
-		if c.cur != nil || c.next < len(c.prog.Cmds) {
+		if c.cur != nil || c.next < len(c.prog.Cmds) || time.Now().Before(c.wake) {
 			return false
 		}
 	}
@@ -889,7 +910,13 @@ func (s *Sim) events() []event {
 	}
 	elig := s.eligibleNodes()
 	for i, c := range s.cs {
-		if c.cur != nil || c.next >= len(c.prog.Cmds) {
+		for c.cur == nil && c.next < len(c.prog.Cmds) && c.prog.Cmds[c.next].SleepMS > 0 {
+			// an idle stretch starts when the client reaches it
+			c.wake = time.Now().Add(time.Duration(c.prog.Cmds[c.next].SleepMS) * time.Millisecond)
+			s.trace("c%d idle %dms", i, c.prog.Cmds[c.next].SleepMS)
+			c.next++
+		}
+		if c.cur != nil || c.next >= len(c.prog.Cmds) || time.Now().Before(c.wake) {
 			continue
 		}
 		cmd := &c.prog.Cmds[c.next]
@@ -1315,6 +1342,12 @@ func (s *Sim) noteCommand(args []B) {
 	case "rpush", "lpush", "lpushx", "rpushx", "lmove", "linsert":
 		s.listSeen = true
 	}
+	if touchesTTLKey(args) {
+		switch name {
+		case "setex", "expire", "set":
+			s.ttlIssued = true
+		}
+	}
 	if mi := mgmtShape(args, len(s.nodes)); mi.is {
 		s.fault("mgmt-" + mi.class)
 		if mi.changes == "" || !(s.mgmtNoChange && s.step-s.mgmtStep < 80) {
@@ -1418,3 +1451,18 @@ func (s *Sim) teardown() {
 }
 
 func itoa(i int) string { return strconv.Itoa(i) }
+
+// seededReader is the run's source of "random" bytes for UUIDs.
+type seededReader struct {
+	mu sync.Mutex
+	r  *core.Rand
+}
+
+func (sr *seededReader) Read(p []byte) (int, error) {
+	sr.mu.Lock()
+	defer sr.mu.Unlock()
+	for i := range p {
+		p[i] = byte(sr.r.Uint64())
+	}
+	return len(p), nil
+}
